@@ -69,6 +69,9 @@ func (t *ClientTransport) Handshake() (hr *parser.HandshakeResponse, err error) 
 	if err != nil {
 		return
 	}
+	// The size of incoming messages is limited by the server (maxPayload), not by the
+	// default read limit (32768 bytes) of the websocket library.
+	t.conn.SetReadLimit(-1)
 
 	// If sid is set this means that we have already connected and
 	// we're using this transport for upgrade purposes.
